@@ -96,7 +96,7 @@ static void crash_hook(const char *sym, void *addr)
         _exit(g_crash_prop == "C05" ? 1 : 0);
 }
 
-static RunResult execute(const Json &plan, std::vector<std::string> *log = nullptr)
+static RunResult execute_once(const Json &plan, std::vector<std::string> *log = nullptr)
 {
         g_current_plan = &plan;
         RunResult rr;
@@ -147,6 +147,24 @@ static RunResult execute(const Json &plan, std::vector<std::string> *log = nullp
         if (log)
                 *log = h.log;
         return rr;
+}
+
+// A call is first suspected of hanging after ~6 s of CPU time inside it.  CPU time is the one quantity in a run the plan does not
+// determine, so the suspicion is never the verdict: the plan is executed again with a 30 s limit and whatever that execution
+// reports (a hang that persists, or the result of a call that was merely slow) is the run's result - in the search, in the
+// in-process gate, while shrinking and in every replay alike.
+static RunResult execute(const Json &plan, std::vector<std::string> *log = nullptr)
+{
+        RunResult r = execute_once(plan, log);
+        size_t n = r.oracle.size();
+        if (n > 5 && r.oracle.compare(n - 5, 5, ".hang") == 0) {
+                g_watchdog_limit = 20;
+                if (log)
+                        log->clear();
+                r = execute_once(plan, log);
+                g_watchdog_limit = 3;
+        }
+        return r;
 }
 
 static bool execute_safely(const Json &plan, RunResult &rr, std::vector<std::string> *log)
